@@ -109,7 +109,7 @@ func (e *Env) findPure(name string) (*PureFn, *PkgContracts) {
 			return p, pc
 		}
 	}
-	for _, pc := range e.g.prog.contracts {
+	for _, pc := range e.g.prog.sortedContracts() {
 		if p, ok := pc.Pures[name]; ok {
 			return p, pc
 		}
@@ -688,10 +688,42 @@ func (e *Env) call(n *ECall) Val {
 		t := e.resolveType(ts)
 		return Val{T: fmt.Sprintf("(%s %s)", g.unboxFn(t), v.T), S: g.sortOf(t), GT: t}
 	case "mem":
-		// mem(list, x): exists k in [0,len) list[k]==x
-		q := &EQuant{Forall: false, Var: "mem$k", Lo: &EInt{V: big.NewInt(0)}, Hi: &ECall{Fn: &EIdent{Name: "len"}, Args: []Expr{n.Args[0]}},
-			Body: &EBin{Op: "==", X: &EIndex{X: n.Args[0], I: &EIdent{Name: "mem$k"}}, Y: n.Args[1]}}
-		return e.quant(q)
+		// mem(list, x): exists k in [0,len) list[k]==x, as a predicate symbol memP(row, lo, hi, x) defined by two
+		// axioms (witness function memW one way, any index the other way) so that E-matching has triggers.
+		lv := e.tr(n.Args[0])
+		st, ok := typeUnder(lv.GT).(*types.Slice)
+		if !ok {
+			e.fail("mem on non-slice")
+		}
+		xv := e.coerceTo(e.tr(n.Args[1]), st.Elem())
+		es := g.sortOf(st.Elem())
+		if xv.S != es {
+			e.fail("mem: element sort mismatch")
+		}
+		fam, fsort := g.elemFam(st.Elem())
+		row := fmt.Sprintf("(select %s %s)", g.heapGet(e.state(), fam, fsort), sref(lv.T))
+		p := "memP_" + typeKey(st.Elem())
+		w := "memW_" + typeKey(st.Elem())
+		if !g.declared[p] {
+			g.declared[p] = true
+			idx := g.idx()
+			rs := fmt.Sprintf("(Array %s %s)", idx, es)
+			g.decls = append(g.decls, fmt.Sprintf("(declare-fun %s (%s %s %s %s) Bool)", p, rs, idx, idx, es),
+				fmt.Sprintf("(declare-fun %s (%s %s %s %s) %s)", w, rs, idx, idx, es, idx))
+			ax1 := fmt.Sprintf("(forall ((mr %s) (ml %s) (mh %s) (mx %s)) (! (=> (%s mr ml mh mx) (and %s %s (= (select mr (%s mr ml mh mx)) mx))) :pattern ((%s mr ml mh mx))))",
+				rs, idx, idx, es, p, g.sle("ml", fmt.Sprintf("(%s mr ml mh mx)", w)), g.slt(fmt.Sprintf("(%s mr ml mh mx)", w), "mh"), w, p)
+			ax2 := fmt.Sprintf("(forall ((mr %s) (ml %s) (mh %s) (mx %s) (mj %s)) (! (=> (and %s %s (= (select mr mj) mx)) (%s mr ml mh mx)) :pattern ((select mr mj) (%s mr ml mh mx))))",
+				rs, idx, idx, es, idx, g.sle("ml", "mj"), g.slt("mj", "mh"), p, p)
+			// prepend so that every obligation of the function sees the definition
+			g.assumes = append([]string{ax1, ax2}, g.assumes...)
+			for _, o := range g.obls {
+				o.nAssume += 2
+			}
+			for i := range g.covers {
+				g.covers[i].nAssume += 2
+			}
+		}
+		return Val{T: fmt.Sprintf("(%s %s %s %s %s)", p, row, soff(lv.T), g.add(soff(lv.T), slen(lv.T)), xv.T), S: "Bool", GT: types.Typ[types.Bool]}
 	case "fresh":
 		v := e.tr(n.Args[0])
 		var ref string
@@ -703,6 +735,25 @@ func (e *Env) call(n *ECall) Val {
 		}
 		a0 := g.heapGet(g.init, "$alloc", "Int")
 		return Val{T: fmt.Sprintf("(>= %s %s)", ref, a0), S: "Bool", GT: types.Typ[types.Bool]}
+	case "implements":
+		// implements(x, I): the dynamic type of interface value x implements interface I
+		v := e.tr(n.Args[0])
+		var ts string
+		switch a := n.Args[1].(type) {
+		case *EType:
+			ts = a.T
+		default:
+			ts = exprString(a)
+		}
+		t := e.resolveType(ts)
+		p := "implements_" + typeKey(t)
+		if !g.declared[p] {
+			g.declared[p] = true
+			g.decls = append(g.decls, fmt.Sprintf("(declare-fun %s (Int) Bool)", p))
+			g.assume(fmt.Sprintf("(not (%s 0))", p))
+		}
+		g.implementsFacts(p, t)
+		return Val{T: fmt.Sprintf("(%s (tagof %s))", p, v.T), S: "Bool", GT: types.Typ[types.Bool]}
 	case "substr":
 		v := e.tr(n.Args[0])
 		return Val{T: fmt.Sprintf("(str-sub %s %s %s)", v.T, e.asIdx(e.tr(n.Args[1])), e.asIdx(e.tr(n.Args[2]))), S: "Str", GT: v.GT}
